@@ -69,9 +69,20 @@ Inductive pexp :=
 | PNanLike (a : pexp)                     (* np.full(a.shape, np.nan) *)
 | PNanSub (a : pexp) (bi bj : nat)        (* NanSubtotals.blocks(a, dimensions)[bi][bj] *)
 | PCdf (x df : pexp)                      (* t.cdf(x, df=df) *)
+| PNCdf (x : pexp)                        (* norm.cdf(x) *)
+| PIdx1 (a : pexp) (k : ixe)              (* a[k], a 1-D *)
+| PScal (s : string)                      (* an opaque scalar field of self (self._alpha) *)
+| PMaskRowsSum (m nv : pexp)              (* np.sum(m[~np.isnan(nv), :], axis=0), m 2-D, nv 1-D *)
 | PTab2 (c a : string) (body : pexp)
       (* np.array([[body for j in range(X.shape[1])] for i in range(X.shape[0])]), X the 3-D cube
          array c.a (rows x columns x columns); body a scalar in IxLoop 0 (= i) and IxLoop 1 (= j) *)
+| PTabR (r : pexp) (c a : string) (body : pexp)
+      (* M = []; for i in range(r.shape[0]): R = []; for j in range(X.shape[1]): R.append(body);
+         M.append(R); np.array(M)  --  r a 2-D array, X the 3-D cube array c.a *)
+| PIdx3S (c a : string) (i j k : ixe)
+      (* OverlapSubtotals.blocks(<3-D cube array c.a>, dimensions, diff_cols_nan=True)[1][0][i, j, k]:
+         the inserted-rows block of the tensor *)
+| PZeroRows (a : pexp)                    (* np.zeros((0, a.shape[1])) *)
 | PIf (c : pcond) (a b : pexp)            (* `if c: return a` ... `return b`;  a if c else b *)
 with pcond :=
 | CIxNeg (k : ixe)                        (* k < 0 *)
@@ -79,6 +90,7 @@ with pcond :=
 | CSizeZero (a : pexp)                    (* a.size == 0 *)
 | CSizePos (a : pexp)                     (* a.size > 0 *)
 | CPFlag (s : string)                     (* an opaque boolean: <measure>.is_defined, <x> is not None *)
+| CNdimLt2 (a : pexp)                     (* a.ndim < 2 *)
 | CPNot (c : pcond).
 
 (* ------------------------------------------------------------------------------------ *)
@@ -94,13 +106,18 @@ Record penv := mkPenv {
   pe_slice : string -> mval;
   pe_cube3 : string -> string -> list (list (list xq));
   pe_flag : string -> bool;
-  pe_cdf : xq -> xq -> xq }.
+  pe_cdf : xq -> xq -> xq;
+  pe_ncdf : xq -> xq;                 (* norm.cdf as a function of the signed square of its argument *)
+  pe_scal : string -> xq;
+  (* OverlapSubtotals.blocks(<cube array c.a>, ..)[1][0]: one subvariable x subvariable matrix per
+     inserted row (its meaning: Model/Subtotals.v via C04_gen_OverlapSubtotals) *)
+  pe_ovrows : string -> string -> list (list (list xq)) }.
 
 Definition with_loop (E : penv) (i j : nat) : penv :=
   mkPenv (pe_size E) (pe_ix E)
          (fun k => match k with 0 => Z.of_nat i | _ => Z.of_nat j end)
          (pe_block E) (pe_pblock E) (pe_cube E) (pe_slice E) (pe_cube3 E)
-         (pe_flag E) (pe_cdf E).
+         (pe_flag E) (pe_cdf E) (pe_ncdf E) (pe_scal E) (pe_ovrows E).
 
 Definition ixv (E : penv) (k : ixe) : Z :=
   match k with IxParam s => pe_ix E s | IxLoop n => pe_loop E n end.
@@ -152,8 +169,7 @@ Definition idx2 (E : penv) (v : mval) (zi zj : Z) : mval :=
   | _ => VErr
   end.
 
-Definition idx3 (E : penv) (c a : string) (zi zj zk : Z) : mval :=
-  let A := pe_cube3 E c a in
+Definition idx3_of (A : list (list (list xq))) (zi zj zk : Z) : mval :=
   match nidx (List.length A) zi with
   | Some i =>
       let M := nth i A [] in
@@ -166,6 +182,25 @@ Definition idx3 (E : penv) (c a : string) (zi zj zk : Z) : mval :=
       | None => VErr
       end
   | None => VErr
+  end.
+Definition idx3 (E : penv) (c a : string) (zi zj zk : Z) : mval := idx3_of (pe_cube3 E c a) zi zj zk.
+
+(* a[k] of a 1-D array *)
+Definition idx1 (E : penv) (v : mval) (z : Z) : mval :=
+  match v with
+  | VVec d f => match nidx (pe_size E d) z with Some i => VScal (f i) | None => VErr end
+  | _ => VErr                          (* a row of a 2-D array: not modelled *)
+  end.
+
+(* np.sum(m[~np.isnan(nv), :], axis=0): per column, the sum over the rows whose nv is not NaN *)
+Definition mask_rows_sum (E : penv) (m nv : mval) : mval :=
+  match m, nv with
+  | VMat r c f, VVec r' g =>
+      if dim_eqb r r'
+      then VVec c (fun j => xsum (map (fun i => f i j)
+                                      (filter (fun i => negb (is_nan (g i))) (seq 0 (pe_size E r)))))
+      else VErr
+  | _, _ => VErr
   end.
 
 Definition nansub (v : mval) (bi bj : nat) : mval :=
@@ -216,6 +251,11 @@ Fixpoint pev (sq : bool) (E : penv) (e : pexp) {struct e} : mval :=
   | PNanSub a bi bj => nansub (pev sq E a) bi bj
   | PCdf x df =>
       (if sq then vmap ssq else fun v => v) (bin (pe_cdf E) (pev true E x) (pev false E df))
+  | PNCdf x => (if sq then vmap ssq else fun v => v) (vmap (pe_ncdf E) (pev true E x))
+  | PIdx1 a k => idx1 E (pev sq E a) (ixv E k)
+  | PScal s => (if sq then vmap ssq else fun v => v) (VScal (pe_scal E s))
+  | PMaskRowsSum m nv =>
+      (if sq then vmap ssq else fun v => v) (mask_rows_sum E (pev false E m) (pev false E nv))
   | PTab2 c a body =>
       let nr := pe_size E DR in
       let nc := pe_size E DC in
@@ -228,6 +268,27 @@ Fixpoint pev (sq : bool) (E : penv) (e : pexp) {struct e} : mval :=
           then VMat DR DC (fun i j => scal_or_nan (pev sq (with_loop E i j) body))
           else VErr
       | false => VErr
+      end
+  | PTabR r c a body =>
+      match pev true E r with
+      | VMat rt _ _ =>
+          let nr := pe_size E rt in
+          let nc := pe_size E DC in
+          (* X.shape[1] must be the length of the axis tagged DC *)
+          if Nat.eqb (nrows (nth 0 (pe_cube3 E c a) [])) nc
+          then if forallb (fun i => forallb (fun j => is_scal (pev sq (with_loop E i j) body))
+                                            (seq 0 nc)) (seq 0 nr)
+               then VMat rt DC (fun i j => scal_or_nan (pev sq (with_loop E i j) body))
+               else VErr
+          else VErr
+      | _ => VErr
+      end
+  | PIdx3S c a i j k =>
+      (if sq then vmap ssq else fun v => v) (idx3_of (pe_ovrows E c a) (ixv E i) (ixv E j) (ixv E k))
+  | PZeroRows a =>
+      match pev true E a with
+      | VMat _ c _ => if Nat.eqb (pe_size E DRS) 0 then VMat DRS c (fun _ _ => Fin 0%Q) else VErr
+      | _ => VErr
       end
   | PIf c a b =>
       match pcev E c with
@@ -243,6 +304,11 @@ with pcev (E : penv) (c : pcond) {struct c} : option bool :=
   | CSizeZero a => option_map (fun n => Nat.eqb n 0) (vsize E (pev true E a))
   | CSizePos a => option_map (fun n => negb (Nat.eqb n 0)) (vsize E (pev true E a))
   | CPFlag s => Some (pe_flag E s)
+  | CNdimLt2 a => match pev true E a with
+                  | VErr => None
+                  | VMat _ _ _ => Some false
+                  | _ => Some true
+                  end
   | CPNot a => option_map negb (pcev E a)
   end.
 
@@ -308,3 +374,48 @@ Definition rows_where (E : benv) (f : nat -> nat -> bool) : list (list nat) :=
 
 Definition ipev (E : benv) (b : bmexp) : option (list (list nat)) :=
   option_map (rows_where E) (bmev E b).
+
+(* ------------------------------------------------------------------------------------ *)
+(** * index tuples of 1-D tests: tuple(np.where(<boolean vector>)[0]) *)
+
+Inductive bvexp :=
+| BVLt (a b : pexp)                       (* a < b  (values; b a scalar or of a's shape) *)
+| BVNeg (a : pexp)                        (* a < 0  (a may contain np.sqrt: its sign is that of a*|a|) *)
+| BVAnd (x y : bvexp)                     (* np.logical_and(x, y) *)
+| BVIf (c : pcond) (x y : bvexp).         (* if c: ...  else: ... *)
+
+(* a boolean array with tagged shape (only vectors and scalars) *)
+Inductive bval := BErr | BScal (b : bool) | BVec (d : dim) (f : nat -> bool).
+
+Definition blt (a b : mval) : bval :=
+  match a, b with
+  | VVec d f, VScal y => BVec d (fun i => xltb (f i) y)
+  | VVec d f, VVec d' g => if dim_eqb d d' then BVec d (fun i => xltb (f i) (g i)) else BErr
+  | VScal x, VScal y => BScal (xltb x y)
+  | _, _ => BErr
+  end.
+Definition band (a b : bval) : bval :=
+  match a, b with
+  | BVec d f, BVec d' g => if dim_eqb d d' then BVec d (fun i => f i && g i) else BErr
+  | BScal x, BScal y => BScal (x && y)
+  | _, _ => BErr
+  end.
+
+Fixpoint bvev (E : penv) (b : bvexp) {struct b} : bval :=
+  match b with
+  | BVLt x y => blt (pev false E x) (pev false E y)
+  | BVNeg x => blt (pev true E x) (VScal (Fin 0%Q))
+  | BVAnd x y => band (bvev E x) (bvev E y)
+  | BVIf c x y => match pcev E c with
+                  | Some true => bvev E x
+                  | Some false => bvev E y
+                  | None => BErr
+                  end
+  end.
+
+(* tuple(np.where(v)[0]) of a 1-D boolean array *)
+Definition where1 (E : penv) (v : bval) : option (list nat) :=
+  match v with
+  | BVec d f => Some (filter f (seq 0 (pe_size E d)))
+  | _ => None
+  end.
